@@ -10,8 +10,8 @@ KNOWN = "C05-kept-distinct-energies"
 
 def classify(f):
     case = f.get("input")
-    if not isinstance(case, dict) or case.get("hermitian", True):
-        return None
+    if not isinstance(case, dict) or case.get("hermitian", True) or "sub" not in case:
+        return None  # (the float family of o_float is generated outside the known class)
     if f.get("prop") not in ("kept", "eliminated", "coincide"):
         return None
     if f.get("prop") == "eliminated" and "H_tilde has an eliminated element" in f.get("what", ""):
